@@ -72,6 +72,7 @@ def build_lib(extra_flags=()):
     with open(os.path.join(BUILD, ".lock"), "w") as lk:
         fcntl.flock(lk, fcntl.LOCK_EX)
         if os.path.exists(os.path.join(d, ".done")):
+            os.utime(d)  # in use: keeps it out of the stale-build cleanup of concurrent runs
             return d
         os.makedirs(d, exist_ok=True)
         jobs = []
@@ -93,7 +94,7 @@ def build_lib(extra_flags=()):
         for e in os.listdir(BUILD):
             if e.startswith("lib-") and e != "lib-" + key:
                 p = os.path.join(BUILD, e)
-                if os.path.getmtime(p) < os.path.getmtime(d) - 900:
+                if os.path.getmtime(p) < os.path.getmtime(d) - 6 * 3600:  # never a build another run may still be using
                     subprocess.run(["rm", "-rf", p])
     return d
 
